@@ -914,6 +914,37 @@ def _rowwise_max_of(e, name):
     return False
 
 
+def _exp_calls(node):
+    """[(call, bounded?)] for every hand-written exponential under `node`"""
+    out = []
+    for c in ast.walk(node):
+        if not (isinstance(c, ast.Call) and ast.unparse(c.func) in ("np.exp", "numpy.exp", "math.exp", "np.expm1")
+                and c.args):
+            continue
+        a = c.args[0]
+        ok = False
+        if isinstance(a, ast.BinOp) and isinstance(a.op, ast.Sub) and _rowwise_max_of(a.right, ast.unparse(a.left)):
+            ok = True
+        elif isinstance(a, ast.UnaryOp) and isinstance(a.op, ast.USub) and isinstance(a.operand, ast.Call) \
+                and ast.unparse(a.operand.func) in ("np.abs", "abs", "np.logaddexp", "np.fabs"):
+            ok = True
+        elif isinstance(a, ast.Call) and ast.unparse(a.func) in ("np.clip", "np.minimum") and any(
+                isinstance(x, ast.Constant) for x in a.args[1:]):
+            ok = True
+        elif isinstance(a, ast.Name):
+            # in-place shift before the call: `z -= z.max(axis=1, keepdims=True)`
+            for st in ast.walk(node):
+                if isinstance(st, ast.AugAssign) and isinstance(st.op, ast.Sub) and isinstance(st.target, ast.Name) \
+                        and st.target.id == a.id and st.lineno < c.lineno and _rowwise_max_of(st.value, a.id):
+                    ok = True
+                if isinstance(st, ast.Assign) and len(st.targets) == 1 and isinstance(st.targets[0], ast.Name) \
+                        and st.targets[0].id == a.id and st.lineno < c.lineno and isinstance(st.value, ast.BinOp) \
+                        and isinstance(st.value.op, ast.Sub) and _rowwise_max_of(st.value.right, ast.unparse(st.value.left)):
+                    ok = True
+        out.append((c, ok))
+    return out
+
+
 def r_expstable(A, ctx, scope, rule="R-EXPSTABLE"):
     """C12: probabilities are finite and sum to one for every finite decision value"""
     ctx.rule(rule, "no hand-written exponential of an unbounded decision value on the prediction side: in "
@@ -926,37 +957,19 @@ def r_expstable(A, ctx, scope, rule="R-EXPSTABLE"):
     em = A.prog.modules.get("skglm.estimators")
     if em is None:
         raise AnalysisError("skglm.estimators missing")
+    # the matcher must see its positive and negative examples on every run
+    probe = ast.parse("def p(z):\n    a = np.exp(z)\n    z -= z.max()\n    b = np.exp(z, out=z)\n"
+                      "    c = np.exp(z - z.max(axis=1, keepdims=True))\n    d = np.exp(-np.abs(z))\n    return a, b, c, d\n")
+    if [ok for _, ok in _exp_calls(probe)] != [False, False, True, True]:
+        raise AnalysisError("R-EXPSTABLE matcher lost its examples")
     n = n_exp = 0
     for cls in em.classes.values():
         for m in cls.methods.values():
             if m.name in ("fit", "path", "__init__", "get_params", "set_params"):
                 continue
             n += 1
-            for c in ast.walk(m.node):
-                if not (isinstance(c, ast.Call) and ast.unparse(c.func) in ("np.exp", "numpy.exp", "math.exp", "np.expm1")
-                        and c.args):
-                    continue
+            for c, ok in _exp_calls(m.node):
                 n_exp += 1
-                a = c.args[0]
-                ok = False
-                if isinstance(a, ast.BinOp) and isinstance(a.op, ast.Sub) and _rowwise_max_of(a.right, ast.unparse(a.left)):
-                    ok = True
-                elif isinstance(a, ast.UnaryOp) and isinstance(a.op, ast.USub) and isinstance(a.operand, ast.Call) \
-                        and ast.unparse(a.operand.func) in ("np.abs", "abs", "np.logaddexp", "np.fabs"):
-                    ok = True
-                elif isinstance(a, ast.Call) and ast.unparse(a.func) in ("np.clip", "np.minimum") and any(
-                        isinstance(x, ast.Constant) for x in a.args[1:]):
-                    ok = True
-                elif isinstance(a, ast.Name):
-                    # in-place shift before the call: `z -= z.max(axis=1, keepdims=True)`
-                    for st in ast.walk(m.node):
-                        if isinstance(st, ast.AugAssign) and isinstance(st.op, ast.Sub) and isinstance(st.target, ast.Name) \
-                                and st.target.id == a.id and st.lineno < c.lineno and _rowwise_max_of(st.value, a.id):
-                            ok = True
-                        if isinstance(st, ast.Assign) and len(st.targets) == 1 and isinstance(st.targets[0], ast.Name) \
-                                and st.targets[0].id == a.id and st.lineno < c.lineno and isinstance(st.value, ast.BinOp) \
-                                and isinstance(st.value.op, ast.Sub) and _rowwise_max_of(st.value.right, ast.unparse(st.value.left)):
-                            ok = True
                 ctx.ob(rule, f"{m.fq}::{norm_src(c)[:60]}", ok,
                        what=f"{m.qualname}: `{norm_src(c)[:70]}` exponentiates a decision value that is not shifted by "
                             "its row-wise maximum (nor otherwise bounded above): for large |decision| the "
